@@ -125,6 +125,9 @@ static long now_ms()
 #include <dirent.h>
 #include <sys/syscall.h>
 static int g_patience = 1;
+// progress counter for the check's supervisor (C03_HEARTBEAT=1: "HB <ms> <count>" on stderr every second):
+// a child killed at its deadline is judged by whether this counter was still moving, not by elapsed time
+static std::atomic<long> g_hb{0};
 static int my_tid()
 {
   return (int)syscall(SYS_gettid);
@@ -488,6 +491,7 @@ struct Run
   // ---- execute one token (must be enabled)
   bool exec(char tok)
   {
+    g_hb++;
     if (tok == 'L') {
       if (lmode == WOKEN) {
         lmode = RUNNING;  // it re-locked by itself and is parked at the predicate
@@ -659,10 +663,12 @@ struct Run
       }
       if (forced) {
         static_cast<std::atomic<bool> &>(data->threadShouldBeAlive).store(false);
-        static_cast<std::atomic<bool> &>(data->shouldBeRunning).store(true);
+        // alternate shouldBeRunning: true wakes a sleeper whose predicate ignores the alive flag, false ends
+        // a loop that spins on it
+        static_cast<std::atomic<bool> &>(data->shouldBeRunning).store(((now - tforced) / 4) % 2 == 0);
         static_cast<std::atomic<bool> &>(data->insideLoopBody).store(false);
         data->runningCond.notify_all();
-        if (now - tforced > 120000L) {
+        if (now - tforced > 20000L * g_patience) {
           dump_threads("clean-up");
           printf("HANG-IN-CLEANUP %s\n", hang_detail.c_str());
           fflush(stdout);
@@ -712,6 +718,7 @@ struct Outcome
 static Outcome replay(bool thr, const std::string &toks)
 {
   Outcome o;
+  g_hb++;
   Run r(thr);
   if (!r.stuck.empty()) {
     o.stuck = true;
@@ -974,6 +981,7 @@ static int do_stress(bool thr, long max_cycles, unsigned seed, int inject, long 
             loop_tid = my_tid();
           enters++;
           st_progress++;
+          g_hb++;
           if (stopped.load())
             bad++;
         },
@@ -1037,10 +1045,16 @@ static int do_launch(const char *mname)
   int N = rkcommon::tasking::numTaskingThreads();
   std::atomic<bool> entered{false}, release{false}, finished{false}, dtor_returned{false};
   std::atomic<long> begins{0}, begins_at_dtor{-1};
-  std::atomic<int> fin_at_dtor{-1}, dtid{0};
+  std::atomic<int> fin_at_dtor{-1}, dtid{0}, ltid{0};
+  // C03_NOHOLD=1 (memory-safety variant, run under ASan): the harness keeps NO reference to the shared state, so
+  // a loop task that outlives the object touches freed memory if it does not co-own that state
+  bool nohold = getenv("C03_NOHOLD") && atoi(getenv("C03_NOHOLD")) > 0;
   AsyncLoop *al = new AsyncLoop(
       [&] {
         long b = begins++;
+        g_hb++;
+        if (!ltid.load(std::memory_order_relaxed))
+          ltid = my_tid();
         if (b == 0) {
           entered = true;
           while (!release.load())
@@ -1049,7 +1063,7 @@ static int do_launch(const char *mname)
         }
       },
       (AsyncLoop::LaunchMethod)g_method);
-  std::shared_ptr<Data> data = al->loop;
+  std::shared_ptr<Data> data = nohold ? std::shared_ptr<Data>() : al->loop;
   bool joinable              = al->backgroundThread.joinable();
   al->start();
   long t0 = now_ms();
@@ -1085,14 +1099,47 @@ static int do_launch(const char *mname)
     }
   }
   release = true;
+  g_hb++;
+  {
+    // the destructor must return now.  Hang = its thread AND the loop thread are both blocked in the kernel for 2 s,
+    // or the loop thread has burnt 1.5 s of CPU since the body was released (it spins instead of exiting)
+    BlockWatch wd(dtid.load()), wl(ltid.load());
+    TStat l0 = tstat(wl.tid);
+    ts       = now_ms();
+    while (!dtor_returned.load()) {
+      std::this_thread::sleep_for(std::chrono::microseconds(200));
+      long now = now_ms();
+      if (now - ts < SAMPLE_MS)
+        continue;
+      ts       = now;
+      bool bd  = wd.sample(50 * g_patience), bl = wl.sample(50 * g_patience);
+      TStat l1 = tstat(wl.tid);
+      bool spin = l0.ok && l1.ok && l1.cpu - l0.cpu > 150ULL * g_patience;
+      if ((bd && bl) || (bd && spin)) {
+        const char *pl = last_point[RL].load(), *pc = last_point[RC].load();
+        printf("LAUNCH-HANG method=%s num_tasking_threads=%d joinable=%d: ~AsyncLoop does not return after the in-flight body finished "
+               "(%s; loop thread last point %s, destructor last point %s)\n",
+               mname, N, (int)joinable, spin ? "loop thread keeps spinning" : "all threads blocked", pl ? pl : "?", pc ? pc : "?");
+        dump_threads("launch");
+        fflush(stdout);
+        _exit(7);
+      }
+    }
+  }
   D.join();
+  g_hb++;
   t0 = now_ms();
-  while (data.use_count() > 1 && now_ms() - t0 < 600000L)  // the loop thread / task still holds the shared state
-    std::this_thread::sleep_for(std::chrono::microseconds(100));
+  if (nohold) {
+    // keep the process alive while the loop task winds down (>= 200 ms, or until it is seen to exit)
+    while (now_ms() - t0 < 200 || (HAVE_HOOKS && !loop_exited.load() && now_ms() - t0 < 3000))
+      std::this_thread::sleep_for(std::chrono::microseconds(200));
+  } else
+    while (data.use_count() > 1 && now_ms() - t0 < 600000L)  // the loop thread / task still holds the shared state
+      std::this_thread::sleep_for(std::chrono::microseconds(100));
   printf("LAUNCH method=%s requested_threads=%d num_tasking_threads=%d joinable=%d dtor_waited=%d body_finished_when_dtor_returned=%d "
          "body_begins_after_dtor=%ld loop_gone=%d\n",
          mname, g_nthreads, N, (int)joinable, (int)blocked, fin_at_dtor.load(), begins.load() - begins_at_dtor.load(),
-         (int)(data.use_count() == 1));
+         nohold ? -1 : (int)(data.use_count() == 1));
   return 0;
 }
 
@@ -1108,6 +1155,14 @@ int main(int argc, char **argv)
     rkcommon::tasking::initTaskingSystem(g_nthreads);
   if (const char *e = getenv("C03_PATIENCE"))
     g_patience = atoi(e) > 0 ? atoi(e) : 1;
+  if (getenv("C03_HEARTBEAT"))
+    std::thread([] {
+      for (;;) {
+        fprintf(stderr, "HB %ld %ld\n", now_ms(), g_hb.load() + st_progress.load());
+        fflush(stderr);
+        std::this_thread::sleep_for(std::chrono::seconds(1));
+      }
+    }).detach();
   if (mode == "probe") {
     printf("HOOKS=%d\n", HAVE_HOOKS);
     return 0;
